@@ -35,11 +35,12 @@ class FitSession(KSession):
         lib._pow = _pow
         self._saved_dbrent = type_b._dbrent
         self.dbrent_log = []
+        self.post = None
         def _dbrent(*a, **k):
             from GTC import context
             c0 = context._context._elementary_id_counter
             r = sess._saved_dbrent(*a, **k)
-            sess.dbrent_log.append((r[0], context._context._elementary_id_counter - c0))
+            sess.dbrent_log.append((r[0], context._context._elementary_id_counter - c0, tuple(float(v) for v in a[:3])))
             return r
         type_b._dbrent = _dbrent
 
@@ -148,7 +149,13 @@ class FitSession(KSession):
             return self.type_b.line_fit_wtls(xs, ys, u_x=u_x, u_y=u_y, a_b=a_b, r_xy=r_xy)
         r = self._fit('?', pyop, th, hidden=3)
         if len(self.dbrent_log) > n0:
-            alpha1, ntmp = self.dbrent_log[-1]
+            alpha1, ntmp, br = self.dbrent_log[-1]
+            if r:
+                # the search interval handed to the minimiser is an output of the model
+                assert self.outs[-1].endswith('])')
+                self.outs[-1] = self.outs[-1][:-2] + '; (OutVal %s); (OutVal %s); (OutVal %s)])' % tuple(cf(v) for v in br)
+                # post-condition of the oracle: alpha1 is a stationary point of chi-squared, not an end of the interval
+                self.post = minimiser_postcondition(self.type_b, xs, ys, u_x, u_y, r_xy, alpha1, br)
         else:
             alpha1, ntmp = 0.0, 0
             self.oracle_failed = True          # the minimiser itself raised, or was never reached
@@ -189,6 +196,22 @@ class FitSession(KSession):
         t = '(FMerge %s %s %s)' % (carg(a), carg(b), cf(tol))
         return self._pred(t, ('merge', a, b, tol), lambda: self.type_a.merge(self.val(a), self.val(b), TOL=tol), None)
 
+
+def minimiser_postcondition(type_b, xs, ys, u_x, u_y, r_xy, alpha1, br):
+    """Newton step F/F' of dChiSq_dalpha at the returned angle (F' by a central difference of the analytic F) and the
+    distance to the ends of the interval handed to _dbrent.  Returns None when alpha1 is a stationary point inside the
+    interval (|step| <= 1e-6 rad: the tolerance of _dbrent is 1.5e-8*|alpha| + 1e-10), else a description."""
+    from GTC.lib import UncertainReal
+    if u_x is not None and r_xy is None: r_xy = [0] * len(u_x)      # as line_fit_wtls does
+    d = type_b.dChiSq_dalpha(xs, ys, u_x, u_y, r_xy)
+    F = lambda a: d(UncertainReal._constant(a)).x
+    h = 1e-5
+    f0 = F(alpha1); f1 = (F(alpha1 + h) - F(alpha1 - h)) / (2 * h)
+    end = min(abs(alpha1 - br[0]), abs(alpha1 - br[2]))
+    if not (f1 > 0) or abs(f0 / f1) > 1e-6 or end < 1e-7:
+        return {'alpha1': alpha1, 'interval': list(br), 'dChiSq_dalpha': f0, 'second_derivative': f1,
+                'newton_step': (f0 / f1 if f1 else None), 'distance_to_interval_end': end}
+    return None
 
 HEADER = '''From Coq Require Import ZArith List PrimFloat String.
 From GTCV Require Import Num FNum Vector Opres KTypes Kernel TBLib TypeB TBCase.
